@@ -13,7 +13,7 @@ for d in seeded/*/; do
     echo "-- repository suite with the change:"; (cd /repo && /venv/bin/python -m pytest -q -p no:cacheprovider -W ignore --timeout=120 2>&1 | tail -1)
     echo "-- demo with the change:"; PYTHONPATH=/repo /venv/bin/python $d/demo.py > /tmp/_demo.out 2>&1; echo "   exit $? ($(tail -1 /tmp/_demo.out | cut -c1-120))"
     echo "-- ./check $pid --tier quick with the change:"
-    VERIF_OUT=/tmp/_seedconfirm ./check $pid --tier quick 2>&1 | grep -E "^(  \[|VIOLATION|$pid )" | cut -c1-300; echo "   exit ${PIPESTATUS[0]}"
+    VERIF_OUT=/tmp/_seedconfirm ./check $pid --tier quick 2>&1 | grep -a -E "^(  \[|VIOLATION|$pid )" | cut -c1-300; echo "   exit ${PIPESTATUS[0]}"
     git -C /repo checkout -- . ; rm -rf /tmp/_seedconfirm /tmp/_demo.out
     echo "-- /repo restored: $(git -C /repo status --porcelain | wc -l) modified files"
   } > $d/confirm.txt 2>&1
